@@ -45,3 +45,32 @@ func (o *ndjson) close() error {
 }
 
 type obj = map[string]any
+
+func splitComma(s string) []string {
+	var out []string
+	cur := ""
+	for _, c := range s {
+		if c == ',' {
+			if cur != "" {
+				out = append(out, cur)
+			}
+			cur = ""
+		} else {
+			cur += string(c)
+		}
+	}
+	if cur != "" {
+		out = append(out, cur)
+	}
+	return out
+}
+
+func parseInts(s string) []int {
+	var out []int
+	for _, p := range splitComma(s) {
+		n := 0
+		fmt.Sscanf(p, "%d", &n)
+		out = append(out, n)
+	}
+	return out
+}
